@@ -15,6 +15,10 @@ def run_replay(obligation, model_input, check, battery=()):
             msg = None
             if src == "counter-model":
                 print("note: counter-model input not executable natively:", repr(e)[:200])
+            else:
+                errors = locals().get("errors", 0) + 1
+                if errors <= 2:
+                    print("note: battery input raised in the replay harness:", repr(e)[:200])
         if msg:
             print(f"input ({src}): {inp!r}")
             print("REPLAY-VIOLATION", obligation, "-", msg)
